@@ -10,7 +10,7 @@ From InvokeVerif Require Export Model.CtxCmdModel Spec.C15Spec.
 
 Inductive case :=
 | COpts (c : config) (parent : env) (command : string) (k : kwargs) (obs : outcome)
-| CCtx (cc : ctxcfg) (prog : list stmt) (calls : list call) (final : cstate) (raised : bool).
+| CCtx (cc : ctxcfg) (prog : list stmt) (calls : list call) (final : cstate) (raised : option xkind).
 
 (** build the option tables from association lists *)
 Definition opt_eqb (a b : opt) : bool :=
@@ -69,7 +69,7 @@ Definition corr (x : case) : bool :=
   | COpts c parent command k obs => outcome_eqb (run_model c parent command k) obs
   | CCtx cc prog calls final raised =>
       let '(st, cs, r) := run_program cc prog in
-      list_eqb call_eqb cs calls && cstate_eqb st final && Bool.eqb r raised
+      list_eqb call_eqb cs calls && cstate_eqb st final && oxkind_eqb r raised
   end.
 
 Definition spec (x : case) : bool :=
